@@ -808,7 +808,13 @@ func (w *world) afterWriter(wr *writer) {
 	case "remove":
 		delete(w.live, wr.target)
 		for _, s := range wr.alive {
-			if s.regStep >= 0 && s.spec.Mode == "stream" && !(s.patErr && !s.spec.UpdatesOnly) && w.allowedTarget(s, wr.target) {
+			// (with grants that change while streams are open, the grant that let the subscription start counts:
+			// the removal of its target ends a single-target stream whatever the ACL says by then)
+			allowed := w.allowedTarget(s, wr.target)
+			if !allowed && w.acl != nil && (s.target == "*" || s.target == wr.target) && w.acl.allowedAt(s.spec.User, wr.target, s.startStep) {
+				allowed = true
+			}
+			if s.regStep >= 0 && s.spec.Mode == "stream" && !(s.patErr && !s.spec.UpdatesOnly) && allowed {
 				if s.target == wr.target {
 					s.targetRemoved = true
 					s.removedStep = w.step
